@@ -1021,10 +1021,10 @@ func SpecRdbBuffered(r *memoryRdb) int64 { panic("abstract spec function") }
 
 //@ func MemoryChannel.gcLocked
 //@   arith int
-//@   properties C05 C16
+//@   properties C16
 //@   replay syncer_memoryGcHole
 //@   requires nonnil: mc != nil
 //@   modifies heap
-//@   ensures no_log_segment_goes_while_a_snapshot_is_on_offer: mc.rdb != nil && mc.rdb.replayable ==> len(mc.aofSegs) == old(len(mc.aofSegs))
+//@   ensures no_log_segment_goes_while_a_snapshot_is_on_offer [C16]: mc.rdb != nil && mc.rdb.replayable ==> len(mc.aofSegs) == old(len(mc.aofSegs))
 //@   loop 1:
 //@     invariant oldest_first: mc != nil && (mc.rdb != nil && mc.rdb.replayable ==> len(mc.aofSegs) == old(len(mc.aofSegs)))
